@@ -394,7 +394,9 @@ def resize(catalog, ratio=None, psfhelper=None):
     src_mask = np.ones(len(catalog), dtype=bool)
 
     # check to see if the input catalog contains psf information
-    has_psf = getattr(catalog[0], "psf_a", None) is not None
+    # (a table without psf columns is loaded with psf_a = nan)
+    psf_a = getattr(catalog[0], "psf_a", None)
+    has_psf = psf_a is not None and np.isfinite(psf_a)
 
     # If ratio is provided we just the psf by this amount
     if ratio is not None:
@@ -402,6 +404,9 @@ def resize(catalog, ratio=None, psfhelper=None):
             "Using ratio of {0} to scale input source shapes".format(ratio))
 
         for i, src in enumerate(catalog):
+            # a ratio of 1 changes nothing, whether or not the psf is known
+            if ratio == 1:
+                continue
             # the new source size is the previous size, convolved with the
             # expanded psf
             src.a = np.sqrt(
